@@ -59,7 +59,48 @@ def _repro(fn, *args):
             % (fn, ", ".join(repr(a) for a in args)))
 
 
+_NOISE = {"i": 0}
+
+
+class _IntLike(object):
+    """Compares and hashes like the int it wraps, is not one: arithmetic on it fails inside the callee."""
+
+    def __init__(self, v):
+        self.v = v
+
+    def __eq__(self, other):
+        return other == self.v
+
+    def __hash__(self):
+        return hash(self.v)
+
+
+def _noise(fn, *args):
+    """Every seventh call is preceded by failing calls whose arguments COMPARE EQUAL to the valid ones (float, Fraction, an int-like
+    object): whatever they raise, they must not influence the valid call that follows (a memo written before the work is done)."""
+    _NOISE["i"] += 1
+    if _NOISE["i"] % 7:
+        return
+    # (floats only for inverse_mod, which refuses them at once; the iterative functions would loop on non-integers - that would be
+    # the harness hanging itself, not an observation)
+    convs = (_IntLike,) + ((lambda v: float(v) if abs(v) < 1 << 53 else _IntLike(v),) if fn is NT.inverse_mod else ())
+    for conv in convs:
+        for pos in range(len(args)):
+            bad = list(args)
+            try:
+                bad[pos] = conv(args[pos])
+                fn(*bad)
+            except BaseException:
+                pass
+    # and a failing call with valid types (not invertible / not a residue) next to the valid one
+    try:
+        fn(*[0 if i == 0 else a_ for i, a_ in enumerate(args)])
+    except BaseException:
+        pass
+
+
 def check_inv(ctx, a, m, cls):
+    _noise(NT.inverse_mod, a, m)
     try:
         i = NT.inverse_mod(a, m)
     except Exception as e:
@@ -86,6 +127,7 @@ def check_sqrt(ctx, a, p, extra=""):
     leg = nt.legendre(a, p)
     cls = "sqrt.zero" if a == 0 else "sqrt.%s.%s" % (pc, "residue" if leg == 1 else "nonresidue")
     key = "%s|%s" % (p if p < 10000 else p.bit_length(), extra)
+    _noise(NT.square_root_mod_prime, a, p)
     try:
         r = NT.square_root_mod_prime(a, p)
     except NT.SquareRootError:
@@ -167,6 +209,14 @@ def run(ctx, name, kind, **kw):
             cand.append(t * t % p)
             cand.append(rng.randrange(1, p))
             cand.append(d.curve.rhs(rng.randrange(p)))
+        # arguments that are perfect squares of integers, and their neighbours, across the sizes where floating point and
+        # machine words stop being exact (k^2, k^2 +- 1 for k around 2^16, 2^26..2^26.5, 2^31, 2^32, 2^53, 2^64)
+        for kbits in (8, 16, 24, 26, 31, 32, 40, 53, 64, 100):
+            for _ in range(3):
+                k = rng.randrange(1 << (kbits - 1), 1 << kbits) if kbits != 26 else rng.randrange(1 << 26, int(2 ** 26.5))
+                for a in (k * k, k * k + 1, k * k - 1, k * k + 2 * k, (k * k) << 1):
+                    if 0 <= a < p:
+                        cand.append(a)
         for a in cand:
             check_sqrt(ctx, a, p, extra=c.name)
     elif kind == "sqrt_randp":
